@@ -73,6 +73,70 @@ def unit_format():
     return u
 
 
+def unit_format_layout_paths():
+    """the real row formatter on every path the decoder can produce: (depth, label) pairs collected by walking the pinned layout
+    from every command and response (all union arms, list elements with a one- and a three-digit index): a row comes out (no
+    error whatever the depth and the length of the label), indented by the depth, showing the label"""
+    from tpmstream.common.path import Path, PathNode
+
+    Pm = P()
+    from checks.common import layout as layout_
+
+    L = layout_()
+    u = UnitResult("C14/FORMAT-PATHS")
+    u.functions = ["tpmstream.io.pretty.unmarshal:format"]
+    seen = set()
+
+    def walk(tname, depth, stack):
+        if tname.startswith("list["):
+            walk(tname[5:-1], depth, stack)
+            return
+        if tname in stack:
+            return
+        if tname in L["structs"] or tname in L["tpm2b"]:
+            ent = L["structs"].get(tname) or L["tpm2b"][tname]
+            fields = ent["fields"]
+        elif tname in L["unions"]:
+            fields = L["unions"][tname]["members"]
+        else:
+            return
+        for f in fields:
+            is_list = f["type"].startswith("list[")
+            for label in ([f["name"]] if not is_list else [f["name"], f"{f['name']}[7]", f"{f['name']}[255]"]):
+                seen.add((depth + 1, label))
+            walk(f["type"], depth + 1 + (0 if not is_list else 0), stack + [tname])
+
+    for ccn, ent in L["commands"].items():
+        for area in ("cmd_handles", "cmd_params", "rsp_handles", "rsp_params"):
+            for f in ent[area]["fields"]:
+                is_list = f["type"].startswith("list[")
+                for label in ([f["name"]] if not is_list else [f["name"], f"{f['name']}[7]"]):
+                    seen.add((2, label))
+                walk(f["type"], 2, [])
+    for frame in ("Command", "Response"):
+        for f in L["frames"][frame]["fields"]:
+            seen.add((1, f["name"]))
+    walk("TPMS_AUTH_COMMAND", 2, [])
+    walk("TPMS_AUTH_RESPONSE", 2, [])
+    # the same in a stream (one level deeper)
+    seen |= {(d + 1, lab) for d, lab in list(seen)}
+    bad = []
+    for depth, label in sorted(seen):
+        name, idx = (label, None) if "[" not in label else (label[:label.index("[")], int(label[label.index("[") + 1:-1]))
+        path = Path([PathNode("")] + [PathNode(f"n{i}") for i in range(depth - 1)] + [PathNode(name, idx)])
+        for data, value in ((b"", ""), (b"\x00\x2a", "42")):
+            try:
+                row = Pm.format(None, path, data, value)
+                m = ROW.match(row)
+                if not m or len(m.group("indent")) // 4 != depth or m.group("name") != label or m.group("hex") != data.hex():
+                    bad.append(f"depth {depth} label {label!r}: row {ANSI.sub('', row)!r}")
+            except Exception as e:  # noqa
+                bad.append(f"depth {depth} label {label!r}: {type(e).__name__}: {e}")
+    u.obligations.append({"name": "C14/FORMAT-PATHS/a-row-for-every-path-of-the-layout", "kind": "post", "site": "pretty/unmarshal.py:format", "status": "refuted" if bad else "proved", "backend": "evaluation",
+                          "seconds": 0, "model": None, "detail": f"{len(seen)} (depth, label) pairs; " + "; ".join(bad[:3])})
+    return u
+
+
 def unit_pretty():
     """pretty(event): exactly one row; for a field event = format(type, path, to_bytes(event), text of the value); info event = red text of the event"""
     from tpmstream.common.event import MarshalEvent, WarningEvent
@@ -678,7 +742,7 @@ def run(tier, seed, only=None):
     rep.trusted_base = ["pyvc's reading of Python", "ANSI colour codes of colorama delimit the columns (used to parse real rows)", "the alphabet of event kinds covers every predicate the printer code branches on (is MarshalEvent, is list, element type BYTE, is child of the current parent, has attributes)"]
     rep.assumptions = ["a non-empty non-byte list may or may not get a row for its parent event (it is visible through its elements); an empty one must be shown", "row order rule: a buffer's row holds all its bytes; warnings between its elements may stand before or after it (in order), warnings after its last element stand after it"]
     rep.replayer = replayer
-    jobs = [(unit_format, ()), (unit_pretty, ()), (unit_list_steps, ()), (unit_main_steps, ())]
+    jobs = [(unit_format, ()), (unit_format_layout_paths, ()), (unit_pretty, ()), (unit_list_steps, ()), (unit_main_steps, ())]
     jobs += [(c17.unit_rows, (t.__name__,)) for t in c17.tpma_types()]
     n = 7 if tier == "thorough" else 5
     parts = 16
